@@ -216,6 +216,28 @@ fn planner_case2(u: &Universe, cur_seq: &[usize], tgt_seq: &[usize], hl: usize, 
     }
 }
 
+/// the same pair of layouts with every size and offset multiplied by `k` (offsets far beyond 2^32; sizes stay below 2^32
+/// as the format requires): only the indexes exist, the planner never looks at data.  Compared with the model planner.
+fn planner_case_scaled(u: &Universe, cur_seq: &[usize], tgt_seq: &[usize], hl: usize, k: u64, out: &mut SuiteOut, st: &mut Stats) {
+    let scale = |idx: Idx| -> Idx { idx.into_iter().map(|(id, s, o)| (id, s * k as usize, o.into_iter().map(|x| x * k).collect())).collect() };
+    let cur = scale(idx_of_seq(u, cur_seq));
+    let tgt = scale(idx_of_seq(u, tgt_seq));
+    let line = format!("planner {} {}", idx_str(&cur), idx_str(&tgt));
+    let cur_ci = build_index(u, &cur, hl);
+    let mut tgt_ci = build_index(u, &tgt, hl);
+    let r = std::panic::catch_unwind(std::panic::AssertUnwindSafe(|| {
+        let (n, total) = cur_ci.strip_chunks_already_in_place(&mut tgt_ci);
+        let ops = cur_ci.reorder_ops(&tgt_ci);
+        format!("OK {} {} | {} | {}", n, total, ci_str(u, &tgt_ci), ops_str(u, &ops))
+    }));
+    st.evaluations += 1;
+    st.count("planner/scaled-beyond-2^32");
+    match r {
+        Ok(s) => out.push(&line, &s),
+        Err(_) => { st.violation("C03", "planner panicked on layouts beyond 2^32", &line); out.push(&line, "PANIC"); }
+    }
+}
+
 fn small_universe(sizes: &[usize]) -> Universe {
     let mut u = Universe::new();
     for (i, s) in sizes.iter().enumerate() {
@@ -271,6 +293,7 @@ pub fn suite_planner(dir: &str, seed: u64, thorough: bool, st: &mut Stats) {
         let b: Vec<usize> = (0..lb).map(|_| rng.below(k as u64) as usize).collect();
         let hl = *rng.pick(&[4usize, 8, 16, 64]);
         planner_case2(&u, &a, &b, hl, &mut out, Some(&mut iter_out), st);
+        if rng.chance(1, 4) { planner_case_scaled(&u, &a, &b, hl, *rng.pick(&[(1u64 << 29) + 1, 1 << 28, 805_306_367]), &mut out, st); }
     }
     out.finish();
     iter_out.finish();
@@ -412,6 +435,61 @@ pub fn run_scenario(sc: &Scenario, fault: Option<(u64, usize)>, prior: &[u8], ou
         let mf = out.into_inner();
         let trace_s = mf.trace_str();
         (RunResult { status, moved, fed, file: mf.data.clone(), trace: mf.trace.clone(), trace_s, idx, remaining, nwrites: mf.nwrites }, feeds)
+    })
+}
+
+/// The same in-place scenario placed beyond 2^32: the source starts with three occurrences of a chunk X of 2^31 bytes
+/// that the prior output already holds in place (never read, never written: only its hash and offsets exist), then the
+/// small scenario follows at offset 3 * 2^31.  Everything the clone does must be the small run shifted by that base.
+pub const BIG_BASE: u64 = 3 << 31;
+
+pub fn run_scenario_big(sc: &Scenario, prior: &[u8], out_idx: &Idx) -> (RunResult, Vec<u64>) {
+    let rt = tokio::runtime::Builder::new_current_thread().build().unwrap();
+    rt.block_on(async {
+        let shift = |idx: &Idx| -> Idx { idx.iter().map(|(id, s, o)| (*id, *s, o.iter().map(|x| x + BIG_BASE).collect())).collect() };
+        let xh = HashSum::from(&[0xA5u8; 64][..]);
+        let xoffs = [0u64, 1 << 31, 2 << 31];
+        let mut clone_ci = ChunkIndex::new_empty(sc.hl);
+        clone_ci.add_chunk(xh.clone(), 1 << 31, &xoffs);
+        for (id, size, offs) in &shift(&sc.clone_idx) { clone_ci.add_chunk(sc.u.hashes[*id].clone(), *size, offs); }
+        let mut oci = ChunkIndex::new_empty(sc.hl);
+        oci.add_chunk(xh.clone(), 1 << 31, &xoffs);
+        for (id, size, offs) in &shift(out_idx) { oci.add_chunk(sc.u.hashes[*id].clone(), *size, offs); }
+        let mut mf = MemFile::new(prior.to_vec(), None);
+        mf.base = BIG_BASE;
+        let mut out = CloneOutput::new(mf, clone_ci);
+        let mut status = "OK".to_string();
+        let mut moved = 0u64;
+        let mut fed = vec![];
+        match out.reorder_in_place(oci).await {
+            Ok(n) => moved = n,
+            Err(_) => status = "ERR".into(),
+        }
+        if status == "OK" {
+            for id in &sc.seeds {
+                match out.feed(&sc.u.verified(*id)).await {
+                    Ok(n) => fed.push(n),
+                    Err(_) => { status = "ERR".into(); break; }
+                }
+            }
+        }
+        let mut remaining = vec![];
+        if status == "OK" {
+            if out.chunks().contains(&xh) { status = "X-LEFT".into(); }
+            for (id, _, _) in &sc.clone_idx {
+                if out.chunks().contains(&sc.u.hashes[*id]) { remaining.push(*id); }
+            }
+            for id in &remaining {
+                match out.feed(&sc.u.verified(*id)).await {
+                    Ok(n) => fed.push(n),
+                    Err(_) => { status = "ERR".into(); break; }
+                }
+            }
+        }
+        let idx = ci_str(&sc.u, out.chunks());
+        let mf = out.into_inner();
+        let trace_s = mf.trace_str();
+        (RunResult { status, moved, fed, file: mf.data.clone(), trace: mf.trace.clone(), trace_s, idx, remaining, nwrites: mf.nwrites }, mf.low_touch.clone())
     })
 }
 
@@ -625,6 +703,25 @@ pub fn suite_clone(dir: &str, seed: u64, thorough: bool, st: &mut Stats) {
         if r.nwrites >= 2 { st.nontrivial_key(line.as_bytes()); }
         st.sample(line.clone());
         out.push(&line, &result_line(&r));
+        // the same in-place scenario beyond 2^32 (offsets are u64 in the format; the model's are unbounded): same
+        // statuses, counts, reads and writes, every position shifted by the base, nothing touched below it
+        if let (Some(oi), true) = (&sc.out_idx, SHORT_WRITES.load(std::sync::atomic::Ordering::Relaxed) == 0) {
+            let (small, _) = run_scenario(&sc, None, &sc.prior, &sc.out_idx);
+            let big = std::panic::catch_unwind(std::panic::AssertUnwindSafe(|| run_scenario_big(&sc, &sc.prior, oi)));
+            st.evaluations += 1;
+            st.oracle_checks += 1;
+            st.count("clone/beyond-2^32");
+            match big {
+                Err(_) => st.violation("C03", "in-place clone placed beyond 2^32 panics", &line),
+                Ok((b, low)) => {
+                    let shifted: Vec<Tev> = small.trace.iter().map(|e| match e { Tev::Seek(o) => Tev::Seek(o + BIG_BASE), Tev::Write(o, d) => Tev::Write(o + BIG_BASE, d.clone()), x => x.clone() }).collect();
+                    if !low.is_empty() { st.violation("C13", &format!("in-place clone placed beyond 2^32 touches offset {} (below the base: a chunk that is in place, or a truncated offset)", low[0]), &line); }
+                    else if b.status != small.status || b.file != small.file { st.violation("C03", &format!("in-place clone placed beyond 2^32 ends {} with another content than the same clone at offset 0 ({})", b.status, small.status), &line); }
+                    else if b.trace != shifted { st.violation("C13", "in-place clone placed beyond 2^32 issues other reads/writes than the same clone at offset 0", &line); }
+                    else if b.moved != small.moved + BIG_BASE || b.fed != small.fed || b.idx != small.idx { st.violation("C03", "in-place clone placed beyond 2^32 reports other counts than the same clone at offset 0 (plus the 3 * 2^31 bytes in place before it)", &line); }
+                }
+            }
+        }
         // C05: interrupt at write k with tear t, then re-run in place on what is left
         let do_faults = i % 4 < 2 || thorough;
         if do_faults && r.status == "OK" {
